@@ -1,19 +1,12 @@
-import Cpppo.Driver.Merge
+import Cpppo.Driver.All
 /-! `cpppo_model`: one case per input line, one answer per output line. -/
 open Cpppo
-
-def dispatch (ws : List String) : Option String :=
-  match ws with
-  | [] => some ""
-  | cmd :: _ =>
-    if cmd == "merge" || cmd == "shatter" then Driver.Merge.handle ws
-    else none
 
 partial def loop (inp : IO.FS.Stream) (out : IO.FS.Stream) : IO Unit := do
   let line ← inp.getLine
   if line.isEmpty then return ()
   let ws := Wire.words line
-  match dispatch ws with
+  match Driver.dispatch ws with
   | some r => out.putStrLn r
   | none => out.putStrLn "bad-op"
   loop inp out
